@@ -56,42 +56,49 @@ Definition packet_order (p : packet) (b : bytes) : list (bytes * bytes) :=
    encode path (every path must produce the same bytes and agree with SizeVT).  Model: encode (in the emitted entry order) and size.
    Spec: the model DEcoder maps the real bytes back to the value (no unknown fields), and the
    real SizeVT is the real length. *)
+(* one encoding (bytes size) of the value [s] / [p] as reported by the implementation: model
+   output and specification verdict *)
+Definition enc_case_stat (s : stat) (impl : sx) : sx * bool :=
+  let implb := match impl with SL [SB b; SN _] => Some b | _ => None end in
+  let impln := match impl with SL [SB _; SN n] => Some n | _ => None end in
+  let o := match implb with Some b => stat_order s b | None => st_xattrs s end in
+  let m := SL [SB (encode_stat_ord o s); SN (size_stat s)] in
+  let sp := match implb, impln with
+            | Some b, Some n =>
+              match decode_stat_u b with
+              | Some (s', u) => stat_eqb s' s && bytes_eqb u [] && (len b =? n)
+              | None => false
+              end
+            | _, _ => false
+            end in
+  (m, sp).
+Definition enc_case_packet (p : packet) (impl : sx) : sx * bool :=
+  let implb := match impl with SL [SB b; SN _] => Some b | _ => None end in
+  let impln := match impl with SL [SB _; SN n] => Some n | _ => None end in
+  let o := match implb with Some b => packet_order p b | None => pxattrs p end in
+  let m := SL [SB (encode_packet_ord o p); SN (size_packet p)] in
+  let sp := match implb, impln with
+            | Some b, Some n =>
+              match decode_packet_u b with
+              | Some (p', su, u) => packet_eqb p' p && bytes_eqb su [] && bytes_eqb u [] && (len b =? n)
+              | None => false
+              end
+            | _, _ => false
+            end in
+  (m, sp).
+
 Definition run_2001 (input impl : sx) : sx :=
   match input with
   | SL [SN sel; v] =>
-    let implb := match impl with SL [SB b; SN _] => Some b | _ => None end in
-    let impln := match impl with SL [SB _; SN n] => Some n | _ => None end in
     if negb (N.testbit sel 0) then
       match dec_stat v with
       | None => v_malformed
-      | Some s =>
-        let o := match implb with Some b => stat_order s b | None => st_xattrs s end in
-        let m := SL [SB (encode_stat_ord o s); SN (size_stat s)] in
-        let sp := match implb, impln with
-                  | Some b, Some n =>
-                    match decode_stat_u b with
-                    | Some (s', u) => stat_eqb s' s && bytes_eqb u [] && (len b =? n)
-                    | None => false
-                    end
-                  | _, _ => false
-                  end in
-        verdict m impl sp (SL [])
+      | Some s => let r := enc_case_stat s impl in verdict (fst r) impl (snd r) (SL [])
       end
     else
       match dec_packet v with
       | None => v_malformed
-      | Some p =>
-        let o := match implb with Some b => packet_order p b | None => pxattrs p end in
-        let m := SL [SB (encode_packet_ord o p); SN (size_packet p)] in
-        let sp := match implb, impln with
-                  | Some b, Some n =>
-                    match decode_packet_u b with
-                    | Some (p', su, u) => packet_eqb p' p && bytes_eqb su [] && bytes_eqb u [] && (len b =? n)
-                    | None => false
-                    end
-                  | _, _ => false
-                  end in
-        verdict m impl sp (SL [])
+      | Some p => let r := enc_case_packet p impl in verdict (fst r) impl (snd r) (SL [])
       end
   | _ => v_malformed
   end.
@@ -433,6 +440,112 @@ Definition run_2006 (input impl : sx) : sx :=
                 | _ => false
                 end in
       verdict m impl sp (SL [])
+    | None => v_malformed
+    end
+  | _ => v_malformed
+  end.
+
+(* kind 2008: (sel (op..)) -> (item..): a history of mutations and observations on ONE Stat
+   (sel 0) or Packet (sel 1) object.  The model is a function of the VALUE: it tracks the
+   current value through the mutations (for a Stat object the value sits in pstat) and
+   every observation must be the observation of the current value, whatever happened to
+   the object before — sizes, every encode path, the generic runtime, SendMsg + RecvMsg. *)
+Definition hist_stat (cur : packet) : stat := match pstat cur with Some s => s | None => empty_stat end.
+Definition set_pstat (cur : packet) (o : option stat) : packet :=
+  {| ptype := ptype cur; pstat := o; pid := pid cur; pdata := pdata cur |}.
+
+Definition hist_mut (isp : bool) (cur : packet) (op : sx) : option packet :=
+  match op with
+  | SL [SN 0; v] => if isp then dec_packet v else st <- dec_stat v ;; Some (set_pstat cur (Some st))
+  | SL [SN 1; SB d] => Some {| ptype := ptype cur; pstat := pstat cur; pid := pid cur; pdata := d |}
+  | SL [SN 2; SN i] => Some {| ptype := ptype cur; pstat := pstat cur; pid := i; pdata := pdata cur |}
+  | SL [SN 3; SN ty] => Some {| ptype := ty; pstat := pstat cur; pid := pid cur; pdata := pdata cur |}
+  | SL [SN 4; SL []] => Some (set_pstat cur None)
+  | SL [SN 4; SL [x]] => st <- dec_stat x ;; Some (set_pstat cur (Some st))
+  | SL [SN 5; v] => st <- dec_stat v ;; Some (set_pstat cur (Some st))
+  | SL [SN 6] | SL [SN 7] => Some (if isp then empty_packet else set_pstat empty_packet (Some empty_stat))
+  | _ => None
+  end.
+
+Definition hist_obs (isp : bool) (cur : packet) (op item : sx) : option (sx * bool) :=
+  match op with
+  | SL [SN 10; SN _] =>
+    Some (if isp then enc_case_packet cur item else enc_case_stat (hist_stat cur) item)
+  | SL [SN 11; SN _] =>
+    let n := if isp then size_packet cur else size_stat (hist_stat cur) in
+    Some (SL [SN n], match item with SL [SN k] => k =? n | _ => false end)
+  | SL [SN 12] =>
+    if isp then
+      Some (res_bytes (generic_encode_packet cur),
+            match item with
+            | SL [SN 1; SB b] =>
+              match decode_packet_u b with
+              | Some (p', su, u) => packet_eqb p' cur && bytes_eqb su [] && bytes_eqb u []
+              | None => false
+              end
+            | SL [SN 0] => true
+            | _ => false
+            end)
+    else
+      Some (res_bytes (generic_encode_stat (hist_stat cur)),
+            match item with
+            | SL [SN 1; SB b] =>
+              match decode_stat_u b with
+              | Some (s', u) => stat_eqb s' (hist_stat cur) && bytes_eqb u []
+              | None => false
+              end
+            | SL [SN 0] => true
+            | _ => false
+            end)
+  | SL [SN 13] =>
+    let fr := match item with SL [SB f; _] => f | _ => [] end in
+    let body := skipn 4 fr in
+    let o := packet_order cur body in
+    Some (SL [SB (frame (encode_packet_ord o cur)); SL [enc_packet cur]],
+          match item with
+          | SL [SB f; SL [pv]] =>
+            (4 <=? len f) && (be32_dec (firstn 4 f) =? len body) &&
+            match decode_packet_u body with
+            | Some (p', su, u) => packet_eqb p' cur && bytes_eqb su [] && bytes_eqb u []
+            | None => false
+            end &&
+            match dec_packet pv with Some p' => packet_eqb p' cur | None => false end
+          | _ => false
+          end)
+  | _ => None
+  end.
+
+Definition is_obs (op : sx) : bool :=
+  match op with SL (SN c :: _) => 10 <=? c | _ => false end.
+
+Fixpoint hist_run (isp : bool) (cur : packet) (ops items : list sx) : option (list sx * bool) :=
+  match ops with
+  | [] => Some ([], match items with [] => true | _ => false end)
+  | op :: ops' =>
+    if is_obs op then
+      let it := match items with x :: _ => x | [] => SL [] end in
+      match hist_obs isp cur op it with
+      | None => None
+      | Some r =>
+        match hist_run isp cur ops' (match items with _ :: t => t | [] => [] end) with
+        | None => None
+        | Some rr => Some (fst r :: fst rr, snd r && snd rr && match items with [] => false | _ => true end)
+        end
+      end
+    else
+      match hist_mut isp cur op with
+      | None => None
+      | Some cur' => hist_run isp cur' ops' items
+      end
+  end.
+
+Definition run_2008 (input impl : sx) : sx :=
+  match input with
+  | SL [SN sel; SL ops] =>
+    let isp := N.testbit sel 0 in
+    let start := if isp then empty_packet else set_pstat empty_packet (Some empty_stat) in
+    match hist_run isp start ops (match impl with SL l => l | _ => [] end) with
+    | Some r => verdict (SL (fst r)) impl (snd r) (SL [])
     | None => v_malformed
     end
   | _ => v_malformed
